@@ -98,7 +98,7 @@ func checkCmd(args []string) int {
 		c.Assumptions = []string{"the reference is golang.org/x/net/html itself, as the property states; the harness walks its DOM with a plain recursion", "names carry at most one colon", "inputs without a leading doctype are only monitored for crashes"}
 		c.Components = map[string][]string{"real": realLib, "simulated": {"io.Reader behind ReadHtml (delivery schedule, truncation, read errors, content corruption as the tag-soup source)"}}
 		c.RequiredProbes = []string{"judged-inputs", "not-judged-no-leading-doctype", "read-error", "truncation", "delivery:one-byte"}
-		c.Phases = []simkit.Phase{{Label: "stream-html", Bin: bin, Engine: "stream-html", Runs: pick(6000, 400000), MaxSeconds: secs(60, 1500), DetSample: int(pick(24, 256)), Samples: 3}}
+		c.Phases = []simkit.Phase{{Label: "stream-html", Bin: bin, Engine: "stream-html", Runs: pick(15000, 400000), MaxSeconds: secs(60, 1500), DetSample: int(pick(24, 256)), Samples: 3}}
 	case "C13":
 		c.Level = "exploration"
 		c.Rule = "one evaluation = one simulated call history over 1-3 shared documents (XML/JSON/HTML through the real readers): 3-24 operations drawn from BuildExpr, Exec with With-options or caller-owned maps, ExecAsNodeset whose result slice the caller keeps, deriving sub-slices (with spare capacity) and passing them back as variables, verbatim repeats, Unmarshal, GetCursorString, rebuilds; user callbacks fail, panic, hand out caller-held slices or re-enter Exec; every query is compared with the same query in a fresh isolated world; distinct = distinct operation list; non-trivial = >= 3 queries or >= 3 held slices"
@@ -114,9 +114,9 @@ func checkCmd(args []string) int {
 		c.Components = map[string][]string{"real": append([]string{"Go race detector (race build)"}, realLib...), "simulated": {"goroutine choice between any two statements of exec/, store/, parser/, grammar/grammar.go, grammar/parser/bsr, xsel.go (scheduler L, turn token without happens-before edges)", "user callbacks"}}
 		c.RequiredProbes = []string{"tasks-interleaved", "shared-variable-with-spare-capacity", "shared-variable-in-reverse-order", "forced-switch-at-targeted-site", "race-build-run", "two-or-more-workers-live", "blocked:chan send", "files-with-multi-record-blocks"}
 		c.Phases = []simkit.Phase{
-			{Label: "sched-lib", BinKind: "sched", Bin: env("VERIF_SCHED_BIN", ""), Engine: "sched-lib", Runs: pick(5000, 500000), MaxSeconds: secs(25, 900), DetSample: int(pick(16, 128)), Samples: 2},
+			{Label: "sched-lib", BinKind: "sched", Bin: env("VERIF_SCHED_BIN", ""), Engine: "sched-lib", Runs: pick(12000, 500000), MaxSeconds: secs(30, 900), DetSample: int(pick(16, 128)), Samples: 2},
 			{Label: "sched-cli", Bin: bin, Engine: "sched-cli", Runs: pick(1500, 300000), MaxSeconds: secs(35, 1200), DetSample: int(pick(4, 32)), Samples: 2},
-			{Label: "sched-lib-race", BinKind: "sched-race", Bin: env("VERIF_SCHED_RACE_BIN", ""), Engine: "sched-lib", Runs: pick(1000, 50000), MaxSeconds: secs(25, 900), Env: raceEnv, Samples: 1},
+			{Label: "sched-lib-race", BinKind: "sched-race", Bin: env("VERIF_SCHED_RACE_BIN", ""), Engine: "sched-lib", Runs: pick(3000, 100000), MaxSeconds: secs(30, 900), Env: raceEnv, Samples: 1},
 		}
 	case "C20":
 		c.Level = "exploration"
@@ -131,14 +131,14 @@ func checkCmd(args []string) int {
 		c.Assumptions = []string{"arbitrary byte strings as *expression* are only sampled (generator + token mutation): that clause is a pure-input quantifier and the simulator adds nothing to it", "'xpath query panic' is only judged for un-mutated generated expressions in runs where no callback panicked or returned (nil,nil) and no variable was nil", "a hang is detected by the batch watchdog (180 s without progress) and attributed to the run in progress"}
 		c.Components = map[string][]string{"real": realLib, "simulated": {"io.Reader (hostile delivery and failures)", "user callbacks (errors, panics of several value types, nil results)", "binding maps", "Unmarshal targets"}}
 		c.RequiredProbes = []string{"part:streams", "part:queries", "part:unmarshal", "unfillable-target", "hostile-callback:panic", "hostile-callback:fail", "hostile-callback:nilnil", "mutated-expression", "variable-bound-to-nil", "well-typed-query-evaluated", "unmarshal-nil-result"}
-		c.Phases = []simkit.Phase{{Label: "hostile", Bin: bin, Engine: "hostile", Runs: pick(20000, 1500000), MaxSeconds: secs(60, 1500), DetSample: int(pick(24, 256)), Samples: 3}}
+		c.Phases = []simkit.Phase{{Label: "hostile", Bin: bin, Engine: "hostile", Runs: pick(50000, 1500000), MaxSeconds: secs(60, 1500), DetSample: int(pick(24, 256)), Samples: 3}}
 	case "C10":
 		c.Level = "exploration"
 		c.Rule = "one evaluation = one scripted event history (contract-conforming: element start, then namespaces, then attributes, then children, end; surplus end events only where depth is 0) pulled by store.CreateInMemory through the Parser seam and compared with a stack-machine reference model, plus the stack-ceiling child processes (one evaluation each); distinct = distinct event history; non-trivial = history has >= 4 events"
 		c.Assumptions = []string{"a failing Pull is not used as a fault: the statement is about conforming streams", "the root's own Parent() is not constrained", "order among the namespace nodes of one element is not constrained beyond increasing Pos"}
 		c.Components = map[string][]string{"real": {"store.CreateInMemory and the InMemory cursor (unmodified)", "Go runtime (stack growth, debug.SetMaxStack)"}, "simulated": {"the Parser (scripted event histories, generated on the fly for the 10^5..3*10^6-event runs)", "goroutine stack ceiling (resource fault)"}}
 		c.RequiredProbes = []string{"surplus-end-event-at-depth-0", "inherited-namespace", "overridden-namespace", "deep-history"}
-		c.Phases = []simkit.Phase{{Label: "events", Bin: bin, Engine: "events", Runs: pick(20000, 1000000), MaxSeconds: secs(40, 1200), DetSample: int(pick(24, 256)), Samples: 3}}
+		c.Phases = []simkit.Phase{{Label: "events", Bin: bin, Engine: "events", Runs: pick(60000, 1000000), MaxSeconds: secs(40, 1200), DetSample: int(pick(24, 256)), Samples: 3}}
 		sizes := []int{100000, 1000000}
 		if thorough {
 			sizes = append(sizes, 3000000)
@@ -177,6 +177,8 @@ func replayCmd(args []string) int {
 		code := replayStack(rf)
 		if code == 1 {
 			fmt.Printf("VIOLATION property=%s replay=%s\n", rf.Property, file)
+		} else if code == 0 {
+			fmt.Printf("NOT-REPRODUCED property=%s replay=%s\n", rf.Property, file)
 		}
 		return code
 	}
